@@ -27,6 +27,7 @@ type caseResult struct {
 	fatal        []string
 	lostInflight int
 	retried      bool
+	finGroups    int
 	lost         map[int]bool // indices of emitted logs that were in flight at a connection drop and never came out
 }
 
@@ -509,6 +510,57 @@ func checkGethLayer(cr *caseResult, drv *lib.Driver) {
 		}
 		cr.gethCompared += 2
 	}
+	// GethL1StateProvider.FinalisedHeight behind the client's retry loop: the node's answers to the
+	// finalized-header queries (header / null / error), call by call, against the model's gethFinalisedHeight
+	var finMarks []Mark
+	for _, m := range o.Marks {
+		switch m.Kind {
+		case "tick", "fin1", "fin1fail", "finerr":
+			finMarks = append(finMarks, m)
+		}
+	}
+	if len(finMarks) == len(o.FinLog) {
+		var gl, ge []string
+		var cur []string
+		closeG := func(fin string) {
+			gl = append(gl, "gethfin "+strings.Join(cur, " "))
+			ge = append(ge, fmt.Sprintf("calls=%d fin=%s", len(cur), fin))
+			cur = nil
+		}
+		for i, m := range finMarks {
+			cur = append(cur, o.FinLog[i])
+			switch m.Kind {
+			case "tick", "fin1":
+				closeG(fmt.Sprintf("%x", m.Fin))
+			case "fin1fail":
+				closeG("none")
+			}
+		}
+		// (a call still in flight when the context ended is not compared: the node may have answered a
+		// header that the cancelled client never saw)
+		if len(gl) > 0 {
+			drvMu.Lock()
+			go2, err := drv.AskAll(gl)
+			drvMu.Unlock()
+			if err != nil {
+				cr.fatal = append(cr.fatal, "Lean driver died or answered short: "+err.Error())
+				return
+			}
+			for i := range gl {
+				cr.gethCompared++
+				if go2[i] != ge[i] {
+					cr.mismatches = append(cr.mismatches, lib.Mismatch{Sig: "geth-finalised-height: the layer's answers differ from the model (header / not found / error)",
+						Input: map[string]any{"case": c, "line": gl[i]}, Model: go2[i], Impl: ge[i]})
+					break
+				}
+			}
+			cr.finGroups = len(gl)
+		}
+	} else {
+		// a call made into a connection that was being dropped never reached the node: the call-by-call
+		// alignment is lost for this case (the heights themselves are still compared: `geth-layer:`)
+		cr.finGroups = -1
+	}
 	// catch-up queries
 	qi := 0
 	for _, m := range o.Marks {
@@ -664,6 +716,11 @@ func main() {
 	// (l1head-moves-back-to-late-delivered-older-event, a fixed finding) report it.
 	guard := true
 	var cases []*Case
+	if *cacheOnly {
+		// child process of the -race build: only the concurrent L1-head families
+		runCacheFamilies(f, res, drv, r, nil)
+		lib.Finish(f, res)
+	}
 	if f.Replay != "" {
 		b, err := os.ReadFile(f.Replay)
 		if err != nil {
@@ -672,8 +729,13 @@ func main() {
 		}
 		var wrap struct {
 			Replay struct {
-				Case *Case `json:"case"`
+				Case      *Case      `json:"case"`
+				CacheCase *CacheCase `json:"cache_case"`
 			} `json:"replay"`
+		}
+		if err := json.Unmarshal(b, &wrap); err == nil && wrap.Replay.CacheCase != nil {
+			runCacheFamilies(f, res, drv, r, wrap.Replay.CacheCase)
+			lib.Finish(f, res)
 		}
 		if err := json.Unmarshal(b, &wrap); err != nil || wrap.Replay.Case == nil {
 			res.Fatalf("replay: cannot read case from %s: %v", f.Replay, err)
@@ -711,6 +773,13 @@ func main() {
 		}
 	}
 
+	if f.Replay == "" && (os.Getenv("C17_ONLY") == "" || strings.HasPrefix(os.Getenv("C17_ONLY"), "l1cache")) {
+		// the recorded head under concurrent L1Head() / SetL1Head (round 5)
+		runCacheFamilies(f, res, drv, r, nil)
+		if f.Thorough() {
+			cacheRaceChild(f, res)
+		}
+	}
 	if only := os.Getenv("C17_ONLY"); only != "" {
 		var sel []*Case
 		for _, c := range cases {
@@ -915,6 +984,18 @@ func main() {
 		}
 		if cr.retried {
 			res.Hit("harness:case-re-run-after-a-barrier-timeout")
+		}
+		if cr.an.loopTied {
+			res.Hit("loop:life-replayed-on-the-model-with-channel-and-subscriptions")
+			res.HitN("loop:unsubscribe-calls-compared", len(o.Unsubs))
+			if o.FinalChan > 0 {
+				res.Hit("loop:values-left-in-the-channel-at-shutdown")
+			}
+		}
+		if cr.finGroups > 0 {
+			res.HitN("geth:finalised-height-call-groups-compared", cr.finGroups)
+		} else if cr.finGroups < 0 {
+			res.Hit("geth:finalised-height-calls-not-aligned(connection-drop)")
 		}
 		if len(o.Notes) > 0 {
 			res.Sample(8, map[string]any{"case": c.Name, "ops": len(c.Ops), "events": len(o.Events), "polls": countKind(o.Marks, "tick"),
